@@ -18,17 +18,33 @@ Init == S = Init0 /\ steps = 0 /\ hist = <<>> /\ pick = Act("-", "h1", "-", "-",
 RECURSIVE ApplySeq(_, _, _)
 ApplySeq(S0, seq, i) == IF i > Len(seq) THEN S0 ELSE ApplySeq(Apply(S0, [seq[i] EXCEPT !.id = i]), seq, i + 1)
 Prefixes ==
-    LET o(h, n, u) == Act("Open", h, n, u, "CreateOrOpen", "-", "-", "-")
+    LET om(h, n, u, m) == Act("Open", h, n, u, m, "-", "-", "-")
+        o(h, n, u) == om(h, n, u, "CreateOrOpen")
+        cl(h) == Act("Close", h, "-", "-", "-", "-", "-", "-")
         cad(h) == Act("CloseAndDelete", h, "-", "-", "-", "-", "-", "-")
         sf(h, c, f, fk) == Act("StartFeed", h, "-", "-", "-", c, f, fk)
-        w(h, c) == Act("Write", h, "-", "-", "-", c, "-", "-") IN
+        w(h, c) == Act("Write", h, "-", "-", "-", c, "-", "-")
+        drop(h) == Act("Drop", h, "-", "-", "-", "c1", "-", "-") IN
     { <<>>,
       <<o("h1", "A", "d1"), o("h2", "A", "d1")>>,
       <<o("h1", "A", "mem"), o("h2", "A", "mem")>>,
       <<o("h1", "A", "d1"), o("h2", "A", "d1"), cad("h1"), o("h3", "A", "d1"), o("h4", "A", "d1")>>,
       <<o("h1", "B", "mem"), o("h2", "B", "mem"), cad("h2"), o("h3", "B", "mem")>>,
       <<o("h1", "A", "d2"), o("h2", "A", "d2"), sf("h1", "c0", "f1", "live"), sf("h2", "c1", "f2", "live"), w("h1", "c1")>>,
-      <<o("h1", "A", "d1"), w("h1", "c1"), sf("h1", "c0", "f1", "multi")>> }
+      <<o("h1", "A", "d1"), w("h1", "c1"), sf("h1", "c0", "f1", "multi")>>,
+      \* data on disk after the last handle closed: every open mode afterwards, refused ones included
+      <<o("h1", "A", "d1"), w("h1", "c0"), w("h1", "c1"), cl("h1"), om("h2", "A", "d1", "CreateNew"), om("h2", "A", "d1", "ReOpenExisting")>>,
+      <<o("h1", "B", "d2"), w("h1", "c0"), cl("h1"), om("h2", "B", "d2", "CreateNew"), om("h2", "B", "d2", "CreateOrOpen"), cl("h2"),
+        om("h3", "B", "d1", "ReOpenExisting")>>,
+      <<o("h1", "B", "mem"), w("h1", "c0"), cl("h1"), om("h2", "B", "mem", "CreateNew"), om("h2", "B", "mem", "ReOpenExisting")>>,
+      \* a left-over handle of a deleted bucket is closed while its namesake (one handle / two handles) runs a feed
+      <<o("h1", "A", "d1"), o("h2", "A", "d1"), cad("h1"), o("h3", "A", "d1"), sf("h3", "c0", "f1", "live"), cl("h2"), w("h3", "c0")>>,
+      <<o("h1", "A", "d1"), o("h2", "A", "d1"), cad("h1"), o("h3", "A", "d1"), o("h4", "A", "d1"), sf("h4", "c0", "f1", "live"),
+        cl("h2"), cl("h3"), w("h4", "c0")>>,
+      <<o("h1", "B", "mem"), o("h2", "B", "mem"), cad("h1"), o("h3", "B", "mem"), sf("h3", "c1", "f1", "live"), cl("h2"), cl("h2"), w("h3", "c1")>>,
+      \* a collection is dropped through one handle, another one is created, the other handle still holds the old one
+      <<o("h1", "A", "mem"), o("h2", "A", "mem"), w("h2", "c1"), drop("h1"), w("h1", "c2"), w("h2", "c1"), w("h1", "c2")>>,
+      <<o("h1", "A", "d1"), o("h2", "A", "d1"), w("h2", "c1"), w("h1", "c1"), drop("h2"), w("h2", "c2"), w("h1", "c1")>> }
 GenInit == \E pre \in {RandomElement(Prefixes)} :
               /\ S = ApplySeq(Init0, pre, 1) /\ steps = Len(pre)
               /\ hist = [i \in 1..Len(pre) |-> [pre[i] EXCEPT !.id = i]]
